@@ -9,7 +9,7 @@ writer's loops emit (syntax-directed cost count).
 import ast
 import copy
 
-from ..core import AnalysisError, class_methods, const_str, dotted, norm, short
+from ..core import pfind, pall, pmatch, AnalysisError, class_methods, const_str, dotted, norm, short
 from ..report import Result
 from ..mustflow import MustFlow
 from .c11 import lin, loop_range
@@ -148,11 +148,10 @@ def rule_b(repo, res, R, W, where):
         res.check(same, "C20.b", "%s:clones-agree" % name, where, "BitstreamReader.%s and BitstreamWriter.%s differ: %s vs %s" % (name, name, short(ast.Module(body=strip_doc(r), type_ignores=[]), 120), short(ast.Module(body=strip_doc(w), type_ignores=[]), 120)), by="identical bodies")
     # bounded_block_end clamps at zero and closes the block
     be = R["bounded_block_end"]
-    t = norm(be)
-    ok = "max(0, self._bits_remaining)" in t and "self._bits_remaining = None" in t and "raise" in t
+    ok = pfind("max(0, self._bits_remaining)", be)[0] is not None and pfind("self._bits_remaining = None", be)[0] is not None and any(isinstance(x, ast.Raise) for x in ast.walk(be))
     res.check(ok, "C20.b", "bounded_block_end:clamp-and-close", where, "bounded_block_end must return max(0, remaining), clear the block, and refuse when no block is open", by="max(0, remaining); remaining = None")
     bb = R["bounded_block_begin"]
-    ok = "raise" in norm(bb) and "self._bits_remaining = length" in norm(bb)
+    ok = any(isinstance(x, ast.Raise) for x in ast.walk(bb)) and pfind("self._bits_remaining = %s" % bb.args.args[1].arg, bb)[0] is not None
     res.check(ok, "C20.b", "bounded_block_begin:no-nesting", where, "bounded_block_begin must refuse nesting and record the length", by="raise if open; remaining = length")
     # seek preamble
     def seek_pre(fn):
@@ -196,8 +195,7 @@ def rule_c(repo, res, R, W, where):
     for l in ast.walk(rn):
         if isinstance(l, ast.For):
             r, rev = loop_range(l.iter)
-            body = [norm(s) for s in l.body]
-            ok = r == ("0", "%s*1" % n) and rev is False and body[0] == "value <<= 1" and body[1] in ("value |= self.read_bit()", "value += self.read_bit()")
+            ok = r == ("0", "%s*1" % n) and rev is False and len(l.body) == 2 and pmatch("X_v <<= 1", l.body[0]) is not None and (pmatch("X_v |= self.read_bit()", l.body[1], pmatch("X_v <<= 1", l.body[0])) is not None or pmatch("X_v += self.read_bit()", l.body[1], pmatch("X_v <<= 1", l.body[0])) is not None)
     res.check(ok, "C20.c", "read_nbits:msb-first", "%s:BitstreamReader.read_nbits" % where, "read_nbits must shift in `bits` bits, most significant first", by="value = (value << 1) | bit, `bits` times")
     wn = W["write_nbits"]
     bits, val = wn.args.args[1].arg, wn.args.args[2].arg
@@ -220,28 +218,27 @@ def rule_c(repo, res, R, W, where):
     res.check(ok, "C20.c", "write_nbits:range", "%s:BitstreamWriter.write_nbits" % where, "write_nbits must reject negative values and values wider than `bits`", by="value < 0 or value.bit_length() > bits")
     # read_bit / write_bit share the _next_bit discipline
     rb, wb = R["read_bit"], W["write_bit"]
-    tr, tw = norm(rb), norm(wb)
-    ok = "self._current_byte >> self._next_bit & 1" in tr and "self._next_bit -= 1" in tr and "if self._next_bit < 0: self._read_byte()" in tr
-    ok2 = "1 << self._next_bit" in tw and "self._next_bit -= 1" in tw and "if self._next_bit < 0: self._write_byte()" in tw and "self._current_byte &= ~(1 << self._next_bit)" in tw
+    ok = pfind("self._current_byte >> self._next_bit & 1", rb)[0] is not None and pfind("self._next_bit -= 1", rb)[0] is not None and pfind("if self._next_bit < 0:\n    self._read_byte()", rb)[0] is not None
+    ok2 = pfind("1 << self._next_bit", wb)[0] is not None and pfind("self._next_bit -= 1", wb)[0] is not None and pfind("if self._next_bit < 0:\n    self._write_byte()", wb)[0] is not None and pfind("self._current_byte &= ~(1 << self._next_bit)", wb)[0] is not None
     res.check(ok and ok2, "C20.c", "bit-position:shared-discipline", where, "reader and writer must address bit `_next_bit` of the current byte, count it down, and advance the byte when it passes 0", by="bit (7 - k) of byte, advance after bit 0")
-    ok = "self._next_bit = 7" in norm(R["_read_byte"]) and "self._next_bit = 7" in norm(W["_write_byte"]) and "self._current_byte = 0" in norm(W["_write_byte"])
+    ok = pfind("self._next_bit = 7", R["_read_byte"])[0] is not None and pfind("self._next_bit = 7", W["_write_byte"])[0] is not None and pfind("self._current_byte = 0", W["_write_byte"])[0] is not None
     res.check(ok, "C20.c", "byte-advance:resets-to-msb", where, "advancing to the next byte must reset _next_bit to 7 (and clear the writer's byte)", by="_next_bit = 7")
     # uint_lit scaling
-    ok = norm(strip_doc(R["read_uint_lit"])[0]) == "return self.read_nbits(%s * 8)" % R["read_uint_lit"].args.args[1].arg and "self.write_nbits(%s * 8, %s)" % (W["write_uint_lit"].args.args[1].arg, W["write_uint_lit"].args.args[2].arg) in norm(W["write_uint_lit"])
+    _p = R["read_uint_lit"].args.args[1].arg
+    ok = (pfind("return self.read_nbits(%s * 8)" % _p, R["read_uint_lit"])[0] is not None or pfind("return self.read_nbits(8 * %s)" % _p, R["read_uint_lit"])[0] is not None) and (pfind("self.write_nbits(%s * 8, %s)" % (W["write_uint_lit"].args.args[1].arg, W["write_uint_lit"].args.args[2].arg), W["write_uint_lit"])[0] is not None or pfind("self.write_nbits(8 * %s, %s)" % (W["write_uint_lit"].args.args[1].arg, W["write_uint_lit"].args.args[2].arg), W["write_uint_lit"])[0] is not None)
     res.check(ok, "C20.c", "uint_lit:eight-bits-per-byte", where, "uint_lit must be nbits with 8 bits per byte on both sides", by="num_bytes * 8")
     # bitarray / bytes padding and length
     wb_ = W["write_bitarray"]
     bits, val = wb_.args.args[1].arg, wb_.args.args[2].arg
-    t = norm(wb_)
-    ok = "for bit in %s: self.write_bit(bit)" % val in t and "for _ in range(len(%s), %s): self.write_bit(0)" % (val, bits) in t
+    ok = pfind("for X_b in %s:\n    self.write_bit(X_b)" % val, wb_)[0] is not None and pfind("for X_i in range(len(%s), %s):\n    self.write_bit(0)" % (val, bits), wb_)[0] is not None
     rb_ = R["read_bitarray"]
-    ok2 = "self.read_bit() for _ in range(%s)" % rb_.args.args[1].arg in norm(rb_)
+    ok2 = pfind("(self.read_bit() for X_i in range(%s))" % rb_.args.args[1].arg, rb_)[0] is not None or pfind("[self.read_bit() for X_i in range(%s)]" % rb_.args.args[1].arg, rb_)[0] is not None
     res.check(ok and ok2, "C20.c", "bitarray:exact-length-zero-padded", where, "write_bitarray must emit the value then zero-pad to `bits`; read_bitarray must read exactly `bits`", by="value bits + zeros up to `bits` / `bits` reads")
     wby = W["write_bytes"]
     nb, val = wby.args.args[1].arg, wby.args.args[2].arg
-    t = norm(wby)
-    ok = "for byte in bytearray(%s): self.write_nbits(8, byte)" % val in t and "for _ in range(len(%s), %s): self.write_nbits(8, 0)" % (val, nb) in t
-    ok2 = norm(strip_doc(R["read_bytes"])[0]) == "return self.read_bitarray(%s * 8).tobytes()" % R["read_bytes"].args.args[1].arg
+    ok = pfind("for X_b in bytearray(%s):\n    self.write_nbits(8, X_b)" % val, wby)[0] is not None and pfind("for X_i in range(len(%s), %s):\n    self.write_nbits(8, 0)" % (val, nb), wby)[0] is not None
+    _p = R["read_bytes"].args.args[1].arg
+    ok2 = pfind("return self.read_bitarray(%s * 8).tobytes()" % _p, R["read_bytes"])[0] is not None or pfind("return self.read_bitarray(8 * %s).tobytes()" % _p, R["read_bytes"])[0] is not None
     res.check(ok and ok2, "C20.c", "bytes:exact-length-zero-padded", where, "write_bytes must emit each byte as 8 bits then zero-pad to num_bytes; read_bytes must read num_bytes * 8 bits", by="8 bits per byte, zero padded / num_bytes * 8 bits")
 
 
@@ -295,17 +292,19 @@ def rule_d(repo, res, R, W, where):
     res.check(ok, "C20.d", "write_sint:magnitude-then-sign", "%s:BitstreamWriter.write_sint" % where, "write_sint must write the magnitude then, iff the value is non-zero, one sign bit (1 = negative)", by="write_uint(abs(v)); if v != 0: write_bit(v < 0)")
     rs = R["read_sint"]
     b = strip_doc(rs)
-    ok = len(b) == 3 and norm(b[0]) == "value = self.read_uint()" and isinstance(b[1], ast.If) and norm(b[1].test) == "value != 0" and norm(b[1].body[0]) == "if self.read_bit(): value = -value" and norm(b[2]) == "return value"
+    e0 = pmatch("X_v = self.read_uint()", b[0]) if len(b) == 3 else None
+    ok = e0 is not None and pmatch("if X_v != 0:\n    if self.read_bit():\n        X_v = -X_v", b[1], e0) is not None and pmatch("return X_v", b[2], e0) is not None
     res.check(ok, "C20.d", "read_sint:sign-iff-nonzero", "%s:BitstreamReader.read_sint" % where, "read_sint must read a sign bit iff the magnitude is non-zero and negate on 1", by="if value != 0: if read_bit(): value = -value")
     sm, sg = repo.func("bitstream.exp_golomb:signed_exp_golomb_length")
     p = sg.args.args[0].arg
     b = strip_doc(sg)
-    ok = len(b) == 3 and norm(b[0]) == "length = exp_golomb_length(abs(%s))" % p and isinstance(b[1], ast.If) and norm(b[1].test) == "%s != 0" % p and norm(b[1].body[0]) == "length += 1" and norm(b[2]) == "return length"
+    e0 = pmatch("X_l = exp_golomb_length(abs(%s))" % p, b[0]) if len(b) == 3 else None
+    ok = e0 is not None and pmatch("if %s != 0:\n    X_l += 1" % p, b[1], e0) is not None and pmatch("return X_l", b[2], e0) is not None
     res.check(ok, "C20.d", "signed_exp_golomb_length:plus-sign-bit", "%s:signed_exp_golomb_length" % sm.rel, "signed length must be the unsigned length of abs(value) plus one iff value != 0 (the condition under which write_sint emits the sign)", by="exp_golomb_length(abs(v)) + (1 if v != 0)")
     # read_uint mirrors write_uint: prefix bit 1 terminates, else shift in one data bit
     ru = R["read_uint"]
-    t = norm(ru)
-    ok = "value = 1" in t and "if self.read_bit(): break" in t and "value <<= 1" in t and "value += self.read_bit()" in t and "value -= 1" in t
+    n0, e0 = pfind("X_v = 1", ru)
+    ok = e0 is not None and pfind("if self.read_bit():\n    break\nelse:\n    X_v <<= 1\n    X_v += self.read_bit()", ru, e0)[0] is not None and pfind("X_v -= 1", ru, e0)[0] is not None and pfind("return X_v", ru, e0)[0] is not None
     res.check(ok, "C20.d", "read_uint:mirrors-write_uint", "%s:BitstreamReader.read_uint" % where, "read_uint must start from 1, stop on a 1 prefix bit, otherwise shift in one data bit, and finally subtract 1", by="start 1; 0-prefix: shift in a bit; 1-prefix: stop; minus 1")
 
 
